@@ -732,6 +732,16 @@ impl<'a> Run<'a> {
                 self.fail(&["C12", "C13"], format!("C12/unexpected-status/{}/{}", status_name(&other), verb), format!("{} resolved to {}", verb, status_name(&other)));
             }
         }
+        // a put refused by admission changes nothing: the key (which was absent) must not have been stored
+        if !self.stop && state == KeyState::Absent && matches!(status, CommandStatus::Rejected(RejectionReason::KeyWeightIsGreaterThanCacheWeight) | CommandStatus::Rejected(RejectionReason::EnoughSpaceIsNotAvailableAndKeyFailedToEvictOthers)) {
+            let snapshot = self.sut.snapshot();
+            if let Some(entry) = snapshot.stored.iter().find(|e| e.0 == key) {
+                self.fail(&["C06", "C05"], format!("C06/rejected-put-left-the-key-stored/{}", op.name()),
+                          format!("{} of absent key {} was refused by admission ({}) yet the key is stored afterwards (id {}, expiry {:?})", verb, key, status_name(&status), entry.1, entry.2));
+                return;
+            }
+            self.counts.inc("refused_puts_checked_to_have_stored_nothing");
+        }
     }
 
     fn exec_write(&mut self, op: &WriteOp) {
@@ -1067,7 +1077,10 @@ impl<'a> Run<'a> {
     fn gen_upsert(&mut self, key: u64) -> Option<WriteOp> {
         let state = self.state(key);
         let readable = matches!(state, KeyState::Live | KeyState::LiveTtl);
-        if state == KeyState::ExpiredUnswept && !self.cfg.allow.upsert_on_expired { return None; }
+        // an upsert of an expired, unswept key that carries a value AND changes or removes the time-to-live revives the key (it is not one of
+        // the recorded request shapes that are acknowledged and lost): C10/C09/C08/C03 histories always draw those
+        let revival_only = state == KeyState::ExpiredUnswept && !self.cfg.allow.upsert_on_expired;
+        if revival_only && !matches!(self.cfg.focus, "C10" | "C09" | "C08" | "C03") { return None; }
         for _ in 0..8 {
             let mask = if self.cfg.saturate && readable { *self.rng.pick(&[4u64, 8, 8, 4]) } else if self.cfg.saturate { 3 } else { self.rng.range(1, 15) };
             let with_value = mask & 1 != 0;
@@ -1076,6 +1089,7 @@ impl<'a> Run<'a> {
             let remove_ttl = mask & 8 != 0;
             if with_ttl && remove_ttl { continue; }
             if !readable && !with_value { continue; }
+            if revival_only && !(with_value && (with_ttl || remove_ttl)) { continue; }
             let value = if with_value { Some(self.fresh_token(key)) } else { None };
             let weight = if with_weight { Some(self.gen_weight(key)) } else { None };
             let ttl = if with_ttl { Some(self.gen_ttl()) } else { None };
@@ -1173,7 +1187,11 @@ impl<'a> Run<'a> {
                 let mut keys: Vec<u64> = Vec::new();
                 while (keys.len() as u64) < n { let k = self.rng.range(1, self.cfg.n_keys + 1); if !keys.contains(&k) { keys.push(k); } }
                 // now and then the same key is asked for more than once in one call
-                if self.rng.chance(1, 3) { let again = *self.rng.pick(&keys); keys.push(again); if self.rng.chance(1, 2) { keys.push(again); } }
+                if self.rng.chance(1, 3) {
+                    let again = *self.rng.pick(&keys);
+                    for _ in 0..1 + self.rng.below(2) { let at = self.rng.below(keys.len() as u64 + 1) as usize; keys.insert(at, again); }
+                    self.counts.inc("multi_key_reads_with_a_repeated_key");
+                }
                 Step::MultiRead { keys, variant: self.rng.below(3) as usize }
             }
             5 => Step::Advance { delta_ns: self.gen_advance() },
@@ -1205,7 +1223,7 @@ impl<'a> Run<'a> {
                 if keys.iter().any(|k| self.at_deadline(*k)) { return; }
                 if self.cfg.hit_only && keys.iter().any(|k| !self.readable(*k)) { return; }
                 self.lookups += keys.len() as u64;
-                let got = read_multi(&self.sut.cache, *variant, keys);
+                let got = read_multi_raw(&self.sut.cache, *variant, keys);
                 let name = ["multi_get", "multi_get_iterator", "multi_get_map_iterator"][*variant % 3];
                 if got.len() != keys.len() {
                     self.fail(&["C02"], format!("C02/multi-read-length/{}", name), format!("{} over {} keys produced {} results", name, keys.len(), got.len()));
